@@ -124,13 +124,43 @@ theorem collision_is_recorded_deviation (p q : GPoint) (hb : p.byName = q.byName
     rintro ⟨hp, hq⟩
     have := (groupid_injective_partial p q hb hp hq).mp hid
     rw [hne] at this; cases this
+  have hpair : cleanPair p q = (cleanPoint p && cleanPoint q) := by
+    unfold cleanPair; simp [hb]
   constructor
   · unfold devDelimiter
     unfold idOf at hid
+    rw [hpair]
     simp only [hne, hid, Bool.not_false, Bool.true_and, beq_self_eq_true, Bool.and_true, Bool.not_eq_true',
       Bool.and_eq_false_iff]
     cases hp : cleanPoint p <;> cases hq : cleanPoint q <;> simp_all
   · cases hp : cleanPoint p <;> cases hq : cleanPoint q <;> simp_all
+
+/-- **Identity across different by-name flags, partial** (two differently grouped streams merged by a union): a point
+grouped by measurement and a point that is not never share an id when the pair is `cleanMixed` — the measurement is
+non-empty and has no '=', no group-by tag name of the other point has "\n" (`cleanPoint` of the second point gives
+the rest). -/
+theorem groupid_mixed_flags_partial (p q : GPoint) (hp : p.byName = true) (hq : q.byName = false)
+    (hcq : cleanPoint q = true) (hm : cleanMixed p q = true) : idOf p ≠ idOf q := by
+  unfold cleanMixed at hm
+  simp only [Bool.and_eq_true, bne_iff_ne, ne_eq, Bool.not_eq_true', List.all_eq_true] at hm
+  obtain ⟨⟨hne, heq⟩, hdn⟩ := hm
+  intro h
+  unfold idOf toGroupID at h
+  have h := String.ofList_injective h
+  rw [hp, hq] at h
+  refine toGroupIDChars_mixed_ne _ _ _ _ (fun e => hne (String.toList_inj.mp (by simpa using e))) (hasChar_false heq)
+    (cleanPoint_pairs hcq) ?_ h
+  intro pr hpr
+  unfold pairsOf at hpr
+  obtain ⟨d, hd, rfl⟩ := List.mem_map.mp hpr
+  exact hasChar_false (hdn d hd)
+
+/-- … and without that condition they can: a measurement named like a `tag=value` pair. -/
+theorem mixed_flags_collision :
+    let p : GPoint := { byName := true, name := "a=1", tags := [], dims := [] }
+    let q : GPoint := { byName := false, name := "m", tags := [("a", "1")], dims := ["a"] }
+    cleanPoint p = true ∧ cleanPoint q = true ∧ idOf p = idOf q ∧ devDelimiter p q = true := by
+  decide
 
 /-- `groupBy`: the dimension list is sorted and, for `*`, consists exactly of the point's tag keys that are not
 excluded; for named dimensions exactly of the configured ones. -/
